@@ -40,6 +40,9 @@ def close (a b : Rat) : Bool :=
 
 def tol : Rat := 1 / 1000
 
+def showBox (b : Box) : String := s!"[x={b.x} y={b.y} w={b.w} h={b.h}]"
+def showBB (b : BB) : String := s!"[x1={b.x1} y1={b.y1} x2={b.x2} y2={b.y2}]"
+
 def handleC24 (j : Json) : Except String Verdict := do
   let i ← getObj j "in"
   let o ← getObj j "out"
@@ -62,9 +65,9 @@ def handleC24 (j : Json) : Except String Verdict := do
   for (n, p) in nears.zip pos do
     let b : Box := ⟨p.1, p.2, n.w, n.h⟩
     if !decide (outsideOn n.key mb b (-tol)) then
-      return .specfalse s!"not-outside:{n.key.name}" s!"near #{n.id} {n.key.name} box {repr b} vs main box {repr mb}"
+      return .specfalse s!"not-outside:{n.key.name}" s!"near #{n.id} {n.key.name} box {showBox b} vs main box {showBB mb}"
     if !decide (centeredOn n.key mb b tol) then
-      return .specfalse s!"not-centered:{n.key.name}" s!"near #{n.id} {n.key.name} box {repr b} vs main box {repr mb}"
+      return .specfalse s!"not-centered:{n.key.name}" s!"near #{n.id} {n.key.name} box {showBox b} vs main box {showBB mb}"
   if let .ok false := getBool o "children_moved_along" then
     return .specfalse "children-left-behind" "descendants of a near container did not move with it"
   -- model vs implementation
